@@ -27,13 +27,14 @@ PROPERTY = "C56"
 LEVEL = "exploration"
 TECHNIQUE = "exhaustive basis-input enumeration of arithmetic templates vs. Python integer arithmetic (matrix, device, every rule fully expanded)"
 LEVEL_TEXT = ("All 16 arithmetic templates, register sizes 1-3 (thorough: up to 4), EVERY basis input of the documented domain, every "
-              "constant and modulus 1..2^n, signed variants over the full two's-complement range, through qp.matrix, default.qubit and "
+              "constant and modulus 2..2^n, signed variants over the full two's-complement range, through qp.matrix, default.qubit and "
               "every registered rule / hand-written decomposition expanded recursively to closed-form gates; work wires (static and "
               "dynamically allocated) must return to |0> and all columns share one global phase.")
 LEVEL_NOTE = ("Reference = Python ints + mc.refgates closed forms + a column simulator (mc/x_tmpl.py); multi-controlled basic gates are "
               "applied structurally (their own decompositions are C10). PhaseAdder with mod != 2^n is only required to work for "
-              "mod <= 2^(n-1) (the 'one extra wire' reading of its docstring); ModExp only for b < mod. Register sizes above the bound "
-              "and polynomials outside the 5 fixed ones are not explored.")
+              "mod <= 2^(n-1) (the 'one extra wire' reading of its docstring); ModExp only for b < mod; mod = 1 is not explored. qp.matrix is "
+              "taken for <= 6 wires (and not at all for templates that allocate work wires dynamically: it raises TransformError). "
+              "Register sizes above the bound and polynomials outside the 5 fixed ones are not explored.")
 DESIGN_REF = "5.10 C56"
 START = "fork"
 PARALLEL = True
@@ -962,7 +963,7 @@ def run(ctx):
     ctx.enumerate(specs, fn="check", chunk=4, axis="instance-route")
     ctx.coverage["alphabet"] = {"templates": sorted(TEMPLATES), "layouts": LAYOUTS, "polynomials": sorted(POLY),
                                 "routes": ["matrix (<= %d wires)" % MATRIX_MAX_WIRES, "device", "dec", "rule:<every applicable rule>", "mcm:<rule>"]}
-    ctx.coverage["bound"] = {"register_bits": "1-3 (thorough 1-4)", "moduli": "1..2^n (all)", "constants": "all residues + {-1, mod, mod+1}",
+    ctx.coverage["bound"] = {"register_bits": "1-3 (thorough 1-4)", "moduli": "2..2^n (all)", "constants": "all residues + {-1, mod, mod+1}",
                              "inputs": "every basis input of the documented domain", "instances": len(inst),
                              "max_tensor_entries": 2 ** (18 if ctx.quick else 21), "instances_over_tensor_bound_not_run": len(DROPPED)}
     ctx.coverage["specs_per_template"] = per_t
